@@ -162,6 +162,25 @@ func hostileDecInputs(r *rand.Rand, n int, thorough bool) ([][]byte, []string) {
 		add(hdr(append(bytes.Repeat([]byte{0x01, 0x01}, k), 0x02, 0xFF, 0xFF)), "huge-list-at-end")
 		add(hdr(append(bytes.Repeat([]byte{0x01, 0x01}, k), 0x03, 0x08, 0x00, 0x00)), "huge-list-at-end")
 	}
+	// valid messages nested deeply (memory must stay linear in the input whatever the depth)
+	deep := []int{500, 2000, 5000}
+	if thorough {
+		deep = append(deep, 20000)
+	}
+	for _, d := range deep {
+		add(hdr(append(bytes.Repeat([]byte{0x01, 0x01}, d), 0x01, 0x00)), "valid-deep-nesting")
+		add(hdr(append(bytes.Repeat([]byte{0x01, 0x01}, d), 0xA5, 0x01, 0x07)), "valid-deep-nesting")
+		add(hdr(append(bytes.Repeat([]byte{0x01, 0x02, 0x01, 0x00}, d), 0x01, 0x00, 0x01, 0x00)), "valid-deep-nesting")
+	}
+	// refused floats (NaN, infinities) and then valid float messages: a refusal must leave no
+	// state behind that the next call trips over
+	for _, f := range [][]byte{{0x91, 0x04, 0x7F, 0xC0, 0x00, 0x00}, {0x91, 0x04, 0x7F, 0x80, 0x00, 0x00}, {0x81, 0x08, 0xFF, 0xF0, 0, 0, 0, 0, 0, 0},
+		{0x81, 0x08, 0x7F, 0xF8, 0, 0, 0, 0, 0, 1}, {0x01, 0x02, 0x91, 0x04, 0x3F, 0x80, 0, 0, 0x91, 0x04, 0xFF, 0x80, 0, 0}} {
+		add(hdr(f), "non-finite-float")
+		add(hdr([]byte{0x91, 0x04, 0x3F, 0x80, 0x00, 0x00}), "float-after-refusal")
+		add(hdr([]byte{0x81, 0x08, 0x3F, 0xF0, 0, 0, 0, 0, 0, 0}), "float-after-refusal")
+		add(hdr([]byte{0x01, 0x02, 0x69, 0x02, 0x00, 0x07, 0xB1, 0x04, 0, 0, 0, 9}), "ints-after-refusal")
+	}
 	// header-only messages of every type, every format byte, every byte value in an ASCII item
 	for _, b := range headerOnlyGrid(r) {
 		add(b, "header-grid")
@@ -212,7 +231,7 @@ func suiteC07(c *Ctx) []Suite {
 			for i, b := range ins {
 				r := res[i]
 				cs := Case{Nontrivial: true, Tags: []string{tags[i], "outcome:" + r.class}}
-				if len(b) <= 4096 {
+				if len(b) <= 4096 && tags[i] != "valid-deep-nesting" { // printing is cubic in the nesting depth
 					cs.Op = "dec " + hx(b)
 					cs.Decisive = true
 					cs.cmpKeys = "=" // accept/reject token only
